@@ -259,6 +259,9 @@ impl RtpHeader {
     }
 
     pub(crate) fn validate(&self) -> RtpResult<()> {
+        if self.payload_type > 0x7F {
+            return Err(RtpError::InvalidHeader("payload type does not fit 7 bits"));
+        }
         if self.csrcs.len() > 15 {
             return Err(RtpError::InvalidHeader("too many CSRC entries"));
         }
